@@ -289,6 +289,22 @@ def native_population(seed):
         if smp.shape != (1, 2, 4) or not np.all(np.isfinite(smp)) or np.any(np.abs(smp - want_mean) > 6 * 0.5 + 0.5):
             return {'what': '%s: samples of the 4 requested individuals %s are not measurements around %.2f (uninitialised / wrong individuals)' % (label, np.asarray(smp[0, 0]).tolist(), want_mean),
                     'expected': want_mean, 'observed': np.asarray(smp).tolist()}
+    # covariate-dependent population: tight sub-populations whose location is the second covariate, requested rows not ascending
+    for cls in ('GaussianModel', 'LogNormalModel'):
+        for label, cov in (('distinct covariate rows, not ascending', [[3.0, 3.0], [1.0, 1.0], [2.0, 2.0], [1.0, 1.0]]), ('first covariate shared', [[1.0, 3.0], [1.0, 1.0], [1.0, 2.0], [1.0, 1.5]])):
+            pop = real.ComposedPopulationModel([real.CovariatePopulationModel(getattr(real, cls)(), real.LinearCovariateModel(n_cov=2)), real.PooledModel()])
+            pm = real.PredictiveModel(Toy(), [real.GaussianErrorModel()])
+            ppm = real.PopulationPredictiveModel(pm, pop)
+            par = [0.0, 0.001, 0.0, 1.0, 0.0, 0.0, 0.01]
+            try:
+                smp = np.asarray(ppm.sample(par, [2.0, 1.0], n_samples=4, seed=int(seed) + 2, covariates=np.array(cov), return_df=False), dtype=float)
+            except Exception as ex:
+                return {'what': 'Covariate(%s): sampling 4 individuals with %s raises %r' % (cls, label, ex), 'expected': 'samples', 'observed': repr(ex)}
+            for p_, row in enumerate(cov):
+                want = (row[1] if cls == 'GaussianModel' else float(np.exp(row[1]))) + 5.0
+                if smp.shape != (1, 2, 4) or not np.all(np.abs(smp[0, :, p_] - want) < 0.2 + 0.02 * want):
+                    return {'what': 'Covariate(%s), %s: individual %d was requested with covariates %s (measurements about %.4g), sampled measurements %s'
+                            % (cls, label, p_, row, want, np.asarray(smp)[0, :, p_].tolist() if smp.ndim == 3 else smp.shape), 'covariates': cov, 'expected': want, 'observed': np.asarray(smp).tolist()}
     return None
 
 
